@@ -336,7 +336,7 @@ def _main(prop, tier, seed, t0):
             line = f"KNOWN-FINDING: property={prop} {k['what']}"
             if line not in known_lines:
                 known_lines.append(line)
-            if v["kind"] in ("obligation", "custom"):
+            if v["kind"] == "obligation" or v.get("counted"):
                 n_obl -= 1  # reported as a known finding, not counted among the obligations of this run
             continue
         path = write_replay(prop, v["oid"], v["replay_payload"])
